@@ -141,11 +141,15 @@ SeqEqR(obs, xs) == Len(obs) = Len(xs) /\ \A i \in 1..Len(xs) : DecR(obs[i]) = xs
 SeqEqV(obs, xs) == Len(obs) = Len(xs) /\ \A i \in 1..Len(xs) : DecV(obs[i]) = xs[i]
 ObsIncs == Fn([i \in 1..Len(Run.ret.increments) |-> DecR(Run.ret.increments[i])])
 
+(* a replayed behaviour was generated by the bounded model with both deviations on (the code as it  *)
+(* is); its outcome and action sequence are compared only under that same configuration - under    *)
+(* the literal specification the run is judged on its own (a repaired driver follows other paths). *)
+SameModel == Run.expect.on = 1 /\ KF_C09_StopsShortOfFullLoad /\ KF_C09_InitialIncAboveOne
 Clauses ==  \* <<name, holds>>; judged on what was RETURNED (and the inferred inc for the stop clause)
     << <<"Return.noError", Run.ret.error = "">>,
        <<"Return.increments", SeqEqR(Run.ret.increments, increments)>>,
        <<"Return.cs(Snapshots)", SeqEqV(Run.ret.cs, cs)>>,
-       <<"Return.scriptConsumed", Run.ret.leftover = 0>>,
+       <<"Replay.scriptConsumed", ~SameModel \/ Run.ret.leftover = 0>>,
        <<"ReportedEquilibrated.reevaluated",
             /\ Len(Run.ret.equil) = Len(Run.ret.increments)
             /\ \A i \in 1..Len(Run.ret.equil) :
@@ -153,8 +157,8 @@ Clauses ==  \* <<name, holds>>; judged on what was RETURNED (and the inferred in
                  /\ RLt(DecR(Run.ret.equil[i]), absTOL)>>,
        <<"IncrementsIncreasing", IncreasingAll>>,
        <<"Termination.lastIsOneOrBelowMinInc", DoneOK>>,
-       <<"Replay.increments", Run.expect.on = 0 \/ SeqEqR(Run.expect.increments, increments)>>,
-       <<"Replay.actions", Run.expect.on = 0 \/ Run.expect.acts = acts>> >>
+       <<"Replay.increments", ~SameModel \/ SeqEqR(Run.expect.increments, increments)>>,
+       <<"Replay.actions", ~SameModel \/ Run.expect.acts = acts>> >>
 Failed == {Clauses[j][1] : j \in {k \in 1..Len(Clauses) : ~Clauses[k][2]}}
 KFName == IF KF_C09_StopsShortOfFullLoad /\ KF_C09_InitialIncAboveOne
           THEN "kf:KF_C09_StopsShortOfFullLoad+KF_C09_InitialIncAboveOne"
